@@ -82,3 +82,42 @@ Definition prop_C19 (eps : Q) (p : params) (t : tree) (c : ctree) : bool :=
 Definition params_pos (p : params) : Prop := 0 < p_ss p /\ 0 < p_sts p /\ 0 < p_ls p.
 Definition params_posb (p : params) : bool :=
   negb (Qle_bool (p_ss p) 0) && negb (Qle_bool (p_sts p) 0) && negb (Qle_bool (p_ls p) 0).
+
+(* ---------------------------------------------------------------------------------------------
+   The guard of the partial theorem C19_cousins_partial (clause 4 is false in general: K1).
+
+   Shapes only.  hR s: number of levels reached by the walk that starts at s and repeatedly moves
+   to the right-most child that itself has children (hL: left-most).  The guard asks that
+   (a) no node has more than two children, and
+   (b) for every node with two children [a; b]: the right-going walk from a reaches the deepest
+       level of a, and the left-going walk from b reaches the deepest level of b.
+   Under (b) the contour comparison of _get_subtree_shift really visits the facing extreme nodes
+   of the two subtrees at every common level; under (a) left_idx = 0 at every comparison, so the
+   accumulated shift is counted correctly (for left_idx >= 1 it is not: that is the K1 witness). *)
+Inductive sk := Sk (l : list sk).
+Definition skids (s : sk) : list sk := match s with Sk l => l end.
+Fixpoint sk_of (t : tree) : sk := match t with T _ _ _ ks => Sk (map sk_of ks) end.
+Definition sleaf (s : sk) : bool := match s with Sk [] => true | _ => false end.
+
+Definition maxh (h : sk -> nat) (l : list sk) : nat := fold_right (fun k a => Nat.max (h k) a) 0%nat l.
+Fixpoint sheight (s : sk) : nat := match s with Sk l => S (maxh sheight l) end.
+
+(* the first element with children decides; elements without children count one level *)
+Definition chain (h : sk -> nat) (l : list sk) : nat :=
+  fold_right (fun k acc => if sleaf k then Nat.max acc 1 else h k) 0%nat l.
+Fixpoint hL (s : sk) : nat := match s with Sk l => S (chain hL l) end.
+Fixpoint hR (s : sk) : nat :=
+  match s with
+  | Sk l => S (fold_left (fun acc k => if sleaf k then Nat.max acc 1 else hR k) l 0%nat)
+  end.
+
+Fixpoint cguard_sk (s : sk) : bool :=
+  match s with
+  | Sk l => forallb cguard_sk l
+            && match l with
+               | [] | [_] => true
+               | [a; b] => Nat.eqb (hR a) (sheight a) && Nat.eqb (hL b) (sheight b)
+               | _ => false
+               end
+  end.
+Definition cousin_guard (t : tree) : bool := cguard_sk (sk_of t).
